@@ -244,6 +244,9 @@ def seed_repoint(w):
     c.wires[0].connect_pin(u.pins[a.pins[0]])
     c.wires[1].connect_pin(u.pins[b.pins[0]])
     w.add(n)
+    # collections of stored outer pins the caller built now and passes to a bulk call later (a set and a list)
+    w.held.append({u.pins[a.pins[0]]})
+    w.held.append([u.pins[b.pins[0]]])
 
 
 def seed_bundles(w):
